@@ -3,3 +3,5 @@ import Osmt.Prop
 import Osmt.Skel
 import Osmt.Cdcl
 import Osmt.LA
+import Osmt.EUF
+import Osmt.Smt
